@@ -795,11 +795,15 @@ impl BuiltInFunction {
                     ));
                 }
 
-                let (lhs, rhs) = s.split_at(
-                    (*mid)
-                        .try_into()
-                        .with_context(|| format!("`{mid}` is an invalid index (usize)"))?,
-                );
+                let mid: usize = (*mid)
+                    .try_into()
+                    .with_context(|| format!("`{mid}` is an invalid index (usize)"))?;
+
+                if !s.is_char_boundary(mid) {
+                    bail!("`{mid}` is not a valid split point: it lies inside a character of the string")
+                }
+
+                let (lhs, rhs) = s.split_at(mid);
 
                 Ok((
                     Some(vector![
